@@ -83,6 +83,123 @@ def dual_pairing(ctx):
 STRAINS = {"B_Gamma", "B_Kappa", "B_Gamma0", "B_Kappa0"}
 
 
+def vanishing_order_rule(ctx):
+    """The forces are the gradient of the energy.  The energy of both laws vanishes to SECOND order at the reference strains (every term carries
+    two factors that are zero there: dG, dK, lambda - lambda0, 1 - lambda0 / lambda), and differentiation lowers that order by at most one, so
+    every term of B_n and B_m must still carry one such factor: the forces vanish at B_Gamma = B_Gamma0, B_Kappa = B_Kappa0 for ANY
+    reference strain, sheared ones included.  Abstract domain: minimal number of factors that vanish at the reference (sum: min, product:
+    sum, power k: times k; helper methods of the law are inlined).  `S(B_Gamma, B_Gamma0) @ B_Gamma` with S = C_n + E0 (1 - l0 / l) I has
+    order 0: the term C_n @ B_Gamma0 of C_n @ (B_Gamma - B_Gamma0) was dropped ("C_n has a zero axial entry"), wrong for every reference
+    with a shear component."""
+    from .. import protocol
+    rep = ctx.rep
+    PAIRS = {"B_Gamma": "B_Gamma0", "B_Kappa": "B_Kappa0"}
+    n = 0
+    for ci in ctx.model.all_classes():
+        if ci.rel != MM:
+            continue
+        view = protocol.ClassView(ctx, ci)
+        cP, fP = view.method("potential")
+        if fP is None or all(isinstance(b, ast.Raise) or (isinstance(b, ast.Expr) and isinstance(b.value, ast.Constant)) for b in fP.body):
+            continue
+        C = f"{MM}:{ci.qual}"
+
+        def order_of(fn, depth=0):
+            loc = {}
+            for x in ast.walk(fn):
+                if isinstance(x, ast.Assign) and len(x.targets) == 1 and isinstance(x.targets[0], ast.Name):
+                    loc[x.targets[0].id] = x.value
+
+            def canon(e, seen=frozenset()):
+                """source text with locals inlined and the reference arguments renamed to the current ones"""
+                if isinstance(e, ast.Name):
+                    if e.id in loc and e.id not in seen:
+                        return canon(loc[e.id], seen | {e.id})
+                    for k, v in PAIRS.items():
+                        if e.id == v:
+                            return k
+                    return e.id
+                if isinstance(e, ast.Call):
+                    return f"{norm_src(e.func)}({', '.join(canon(a, seen) for a in e.args)})"
+                if isinstance(e, ast.BinOp):
+                    return f"({canon(e.left, seen)} {type(e.op).__name__} {canon(e.right, seen)})"
+                return norm_src(e)
+
+            def raw(e, seen=frozenset()):
+                if isinstance(e, ast.Name) and e.id in loc and e.id not in seen:
+                    return raw(loc[e.id], seen | {e.id})
+                if isinstance(e, ast.Call):
+                    return f"{norm_src(e.func)}({', '.join(raw(a, seen) for a in e.args)})"
+                return norm_src(e)
+
+            def ref_eq(a, b):
+                return canon(a) == canon(b) and raw(a) != raw(b)
+
+            def od(e, seen=frozenset()):
+                if isinstance(e, ast.Constant):
+                    return 0
+                if isinstance(e, ast.Name):
+                    if e.id in loc and e.id not in seen:
+                        return od(loc[e.id], seen | {e.id})
+                    return 0
+                if isinstance(e, ast.UnaryOp):
+                    return od(e.operand, seen)
+                if isinstance(e, ast.BinOp):
+                    if isinstance(e.op, ast.Sub):
+                        if ref_eq(e.left, e.right):
+                            return 1
+                        if isinstance(e.left, ast.Constant) and e.left.value == 1 and isinstance(e.right, ast.BinOp) and isinstance(e.right.op, ast.Div) \
+                                and ref_eq(e.right.left, e.right.right):
+                            return 1
+                        return min(od(e.left, seen), od(e.right, seen))
+                    if isinstance(e.op, ast.Add):
+                        return min(od(e.left, seen), od(e.right, seen))
+                    if isinstance(e.op, (ast.Mult, ast.MatMult)):
+                        return od(e.left, seen) + od(e.right, seen)
+                    if isinstance(e.op, ast.Div):
+                        return od(e.left, seen)
+                    if isinstance(e.op, ast.Pow):
+                        k = e.right.value if isinstance(e.right, ast.Constant) and isinstance(e.right.value, int) else 1
+                        return od(e.left, seen) * k
+                    return 0
+                if isinstance(e, ast.Call):
+                    f = norm_src(e.func)
+                    if f.startswith("self.") and depth < 3:
+                        c2, f2 = view.method(f[5:])
+                        if f2 is not None and [a.arg for a in f2.args.args[1:]] == [norm_src(a) for a in e.args]:
+                            return order_of(f2, depth + 1)
+                        return 0
+                    if f.split(".")[-1] in ("outer", "dot", "einsum", "cross3", "cross"):
+                        return sum(od(a, seen) for a in e.args if not (isinstance(a, ast.Constant) and isinstance(a.value, str)))
+                    return 0
+                if isinstance(e, ast.Subscript):
+                    return od(e.value, seen)
+                if isinstance(e, ast.Attribute) and e.attr == "T":
+                    return od(e.value, seen)
+                return 0
+            rets = [r.value for r in ast.walk(fn) if isinstance(r, ast.Return) and r.value is not None]
+            return min((od(r) for r in rets), default=0)
+        oW = order_of(fP)
+        if oW < 2:
+            for name in ("B_n", "B_m"):
+                n += 1
+                rep.ok("C12.R8", C, f"{name}: potential vanishes to order {oW} at the reference strains in the form the analysis reads (< 2: no obligation)", verdict="unknown", trivial=True)
+            continue
+        for name in ("B_n", "B_m"):
+            c2, f2 = view.method(name)
+            if f2 is None:
+                continue
+            n += 1
+            o = order_of(f2)
+            if o >= oW - 1:
+                rep.ok("C12.R8", C, f"{name}: every term keeps a factor that vanishes at the reference strains (order {o}; energy: order {oW})")
+            else:
+                rep.bad("C12.R8", C, f2.name, f"the energy of `{ci.qual}` vanishes to order {oW} at B_Gamma = B_Gamma0, B_Kappa = B_Kappa0, so its gradient vanishes there; `{name}` has a term "
+                        f"without any factor that is zero at the reference (order {o}): it is not the gradient of the energy for a general (e.g. sheared) reference strain", f"{MM}:{f2.lineno}")
+    if n < 4:
+        raise AnalysisError(f"C12.R8: only {n} force routines with an energy of order 2 found")
+
+
 def clapeyron_rule(ctx):
     """W = 1/2 (n . dGamma + m . dKappa) ("half the work of the forces", Clapeyron) is the potential of n, m only for a LINEAR law.  An energy
     that is computed from the law's own forces is therefore admissible only if those forces are linear in the strains: no norm / sqrt / power /
@@ -145,6 +262,8 @@ def clapeyron_rule(ctx):
 
 def run(ctx):
     rep = ctx.rep
+    rep.rule("C12.R8", "forces keep one factor that vanishes at the reference strains (the energy vanishes there to second order; differentiation lowers the order by one)", 4)
+    vanishing_order_rule(ctx)
     rep.rule("C12.R7", "an energy computed from the law's own forces (Clapeyron) is admitted only for force laws that are linear in the strains", 2)
     clapeyron_rule(ctx)
     rep.rule("C12.R1", "homogeneity under joint strain scaling", 14)
@@ -306,4 +425,8 @@ NEUTRAL += [
     dict(id="c12-n-r7", canary=True, what="Simo1986.potential written as half the work of its linear forces", file=MM,
          old="        return 0.5 * dG @ self.C_n @ dG + 0.5 * dK @ self.C_m @ dK\n",
          new="        return 0.5 * (self.B_n(B_Gamma, B_Gamma0, B_Kappa, B_Kappa0) @ dG + self.B_m(B_Gamma, B_Gamma0, B_Kappa, B_Kappa0) @ dK)\n"),
+]
+MUTANTS += [
+    dict(id="c12-r8-seed", canary=True, what="[seeded by sub-agent] Harsch2021.B_n as secant stiffness times B_Gamma (reference shear term dropped)", file=MM,
+         old="        return self.C_n @ dG + self.Ei[0] * (1 - lambda0_ / lambda_) * B_Gamma\n", new="        return self.C_n @ B_Gamma + self.Ei[0] * (1 - lambda0_ / lambda_) * B_Gamma\n", expect="C12.R8"),
 ]
